@@ -188,5 +188,59 @@ Example C23_run_nonvacuous :
   = [OYield 1; OYield 0; OYield 2; ORaise ERequestAbort].
 Proof. vm_compute. repeat split; reflexivity. Qed.
 
+(* ------------------------------------------------------------------ lazily_stage_wrapper (with fixes/C23-a.diff) *)
+From BV Require Import Gen.Mutators Gen.Insert Proofs.Lazily.
+From BV Require Gen.TieRelative.
+
+Theorem C23_lazily_stage_trace :
+  forall (P : Type) (resume : P -> input -> outcome P) (mk : mview -> msg) (view : msg -> mview) (is_status : val -> bool)
+         (root : dev -> dev) (resp_devs : val -> option (list dev)) (p : P) (s : list input),
+    plain s = true ->
+    trace (lazy_resume resume mk view is_status root resp_devs true) (lazy_init p) (Send VNone :: s)
+    = s2_ref (ins_resume resume (lazy_decide mk view root resp_devs true)) ins_store (lp_resume is_status)
+             (fw_next (lazy_undo mk)) (IStart p ([], [])) (Send VNone :: s).
+Proof. exact @lazy_trace. Qed.
+Print Assumptions C23_lazily_stage_trace.
+
+(* [fst st] = devices_staged when the plan ended: everything the stage messages were answered with ([root] for the
+   answer None): unstaged last-first, one message per entry *)
+Theorem C23_lazily_stage_unstages_all :
+  forall (P : Type) (resume : P -> input -> outcome P) (mk : mview -> msg) (view : msg -> mview) (is_status : val -> bool)
+         (root : dev -> dev) (resp_devs : val -> option (list dev)) (p : P) (s : list input) ms t st vs rest c,
+    plain s = true ->
+    split (ins_resume resume (lazy_decide mk view root resp_devs true)) ins_store (IStart p ([], [])) (Send VNone :: s)
+      = (ms, Some (t, st, map Send vs ++ rest)) ->
+    plain_end t = Some c -> length vs = length (fst st) -> existsb is_status vs = false ->
+    trace (lazy_resume resume mk view is_status root resp_devs true) (lazy_init p) (Send VNone :: s)
+    = map OYield ms ++ map OYield (map (fun d => mk (VUnstage d G_UNSTAGE)) (rev (fst st))) ++ [compl_obs c].
+Proof. exact @lazy_unstages_all. Qed.
+Print Assumptions C23_lazily_stage_unstages_all.
+
+(* along every run, at every yielding step: no root has been staged twice, and devices_staged is left alone or
+   extended by the answer to ONE stage message, for a root not staged before *)
+Theorem C23_lazily_stage_roots_once :
+  forall (P : Type) (resume : P -> input -> outcome P) (mk : mview -> msg) (view : msg -> mview)
+         (root : dev -> dev) (resp_devs : val -> option (list dev)) (p : P) (s : list input) x i m x',
+    let ins := ins_resume resume (lazy_decide mk view root resp_devs true) in
+    after ins (IStart p ([], [])) s = Some x -> ins x i = Yielded m x' ->
+    NoDup (snd (ins_store x' Close)) /\ lazy_recorded (ins_store x Close) (ins_store x' Close).
+Proof. exact @lazy_roots_once. Qed.
+Print Assumptions C23_lazily_stage_roots_once.
+
+(* finding C23-a (repaired by fixes/C23-a.diff): the code before the repair ([fixed = false]) stages the root again at
+   every message on a component the root's stage() answer does not list, and unstages it as often *)
+Import Gen.TieRelative.
+Definition la_tbl : list mview := [VCmd 0 1; VCmd 2 1; VStage 0 0; VUnstage 0 101; VWait 101].
+Definition la_plan : stmt := SSeq (SYield None 0) (SYield None 1).       (* read, then trigger device 1, a child of root 0 *)
+Definition la_script : list input := [Send VNone; Send VNone; Send VNone; Send VNone; Send VNone; Send VNone; Send VNone].
+Definition la_run (fixed : bool) : list obs :=
+  trace (lazy_resume (cl_resume tie_fuel) (mk_t la_tbl) (view_t la_tbl) is_status_t (root_t [(1, 0)]) (resp_devs_t []) fixed)
+        (lazy_init (cl_init la_plan)) la_script.
+
+Theorem C23_a_refuted_before_repair :
+  la_run false = [OYield 2; OYield 0; OYield 2; OYield 1; OYield 3; OYield 3; OReturn VNone] /\
+  la_run true = [OYield 2; OYield 0; OYield 1; OYield 3; OReturn VNone].
+Proof. vm_compute. split; reflexivity. Qed.
+
 (* Full statement of the property (kept for reference).  Proved above: run_wrapper, stage_wrapper, subs_wrapper,
    suspend_wrapper.  The lazily_stage / monitor_during / fly_during clauses are stated in their own sections below. *)
